@@ -28,7 +28,7 @@ Fixpoint digit_run (s : str) (cur best : nat) : nat :=
 Fixpoint count_char (c : char) (s : str) : nat :=
   match s with [] => 0 | x :: r => ((if x =? c then 1 else 0) + count_char c r)%nat end.
 
-Inductive fclass := FRange | FArith | FSubst | FNlDollar | FSelfRef | FBraceOpen.
+Inductive fclass := FRange | FArith | FSubst | FNlDollar | FSelfRef | FBraceOpen | FHereString.
 
 (** C12: a brace range with an operand of ten digits or more (the i32 limits have ten) *)
 Definition k_range (l : str) : bool :=
@@ -36,9 +36,12 @@ Definition k_range (l : str) : bool :=
 (** C19: an arithmetic line with a literal of 19 digits or more, or a power *)
 Definition k_arith (l : str) : bool :=
   is_arithmetic l && (Nat.leb 19 (digit_run l 0 0) || has_char c_caret l).
-(** C11: a command substitution and a redirection sign *)
+(** C11: a dollar and an opening parenthesis (quotes or a backslash may stand between them
+    and are removed by the tokenizer) or a backquote, and a redirection sign *)
 Definition k_subst (l : str) : bool :=
-  (contains_sub [c_dollar; c_lp] l || has_char c_bq l) && (has_char c_gt l || has_char c_lt l).
+  ((has_char c_dollar l && has_char c_lp l) || has_char c_bq l) && (has_char c_gt l || has_char c_lt l).
+(** C02/C08: a here-string (the shell dies with SIGPIPE when nobody reads it) *)
+Definition k_herestring (l : str) : bool := contains_sub [c_lt; c_lt; c_lt] l.
 (** C10: a newline and a dollar *)
 Definition k_nl_dollar (l : str) : bool := has_char c_nl l && has_char c_dollar l.
 (** C10: an assignment and two dollars (a value holding a reference, then a use) *)
@@ -49,4 +52,5 @@ Definition k_brace_open (l : str) : bool := contains_sub [c_dollar; c_lb] l.
 Definition known_foreign (l : str) : list fclass :=
   (if k_range l then [FRange] else []) ++ (if k_arith l then [FArith] else []) ++
   (if k_subst l then [FSubst] else []) ++ (if k_nl_dollar l then [FNlDollar] else []) ++
-  (if k_selfref l then [FSelfRef] else []) ++ (if k_brace_open l then [FBraceOpen] else []).
+  (if k_selfref l then [FSelfRef] else []) ++ (if k_brace_open l then [FBraceOpen] else []) ++
+  (if k_herestring l then [FHereString] else []).
